@@ -107,18 +107,34 @@ func runBtcExec(c Case) Obs {
 	rid[31] = 0x30
 	resource := btcconfig.Resource{Address: addr, ResourceID: rid, Tweak: hex.EncodeToString(tweak[:]), Script: pkScript}
 
-	// the bridge's UTXOs: the executor needs exactly n of them for the transfer
-	const value = 10000
+	// the bridge's UTXOs as the mempool serves them (c.Values: in general every one of another value); the
+	// executor needs exactly the first n of them for the transfer.  prevOuts is the CHAIN's view of these
+	// outputs - amount and script of each - and what every witness of a broadcast transaction is verified
+	// against below (BIP-341: the digest an input's signature covers commits to the amounts and scripts of
+	// ALL spent outputs), whatever the executor itself took them to be.
+	values := c.Values
+	if len(values) == 0 {
+		values = []uint64{10000, 10000, 10000, 10000, 10000}
+	}
+	if n < 1 || n > len(values) {
+		o.BtcNote = "more inputs asked for than UTXOs offered"
+		return o
+	}
 	var utxos []mempool.Utxo
 	prevOuts := map[wire.OutPoint]*wire.TxOut{}
-	for i := 0; i < 5; i++ {
+	for i, value := range values {
 		h := sha256.Sum256([]byte(fmt.Sprintf("c08-btcexec-utxo-%d-%d", c.Seed, i)))
 		ch := chainhash.Hash(h)
 		utxos = append(utxos, mempool.Utxo{TxID: ch.String(), Vout: uint32(i), Value: value})
-		prevOuts[*wire.NewOutPoint(&ch, uint32(i))] = wire.NewTxOut(value, pkScript)
+		prevOuts[*wire.NewOutPoint(&ch, uint32(i))] = wire.NewTxOut(int64(value), pkScript)
 	}
 	fetcher := txscript.NewMultiPrevOutFetcher(prevOuts)
-	amount := uint64(n-1)*value + 1000
+	// (the first n-1 do not cover amount + fee estimate, the first n cover amount + fee: every value is
+	// at least 6000, the fee of a transaction with 4 inputs is 3940)
+	amount := uint64(1000)
+	for _, v := range values[:n-1] {
+		amount += v
+	}
 	msgID := fmt.Sprintf("c08-btcexec-%d", c.Seed)
 	props := []*proposal.Proposal{{Source: 1, Destination: 2, MessageID: msgID,
 		Data: btcexec.BtcTransferProposalData{Amount: amount, Recipient: addr.EncodeAddress(), DepositNonce: c.Seed%1000 + 1, ResourceId: rid}}}
@@ -187,7 +203,7 @@ func runBtcExec(c Case) Obs {
 			hashes := txscript.NewTxSigHashes(got, fetcher)
 			for i := range got.TxIn {
 				prev := fetcher.FetchPrevOutput(got.TxIn[i].PreviousOutPoint)
-				if prev == nil {
+				if prev == nil { // (an input that spends nothing the bridge owns)
 					valids[i] = false
 					continue
 				}
